@@ -344,7 +344,7 @@ class Constraint:
         if not self.is_logical_constraint():
             return False
         split_ctcs = split_constraint(self)
-        return len(split_ctcs) > 1 and all(
+        return self.is_complex_constraint() and all(
             ctc.is_simple_constraint() for ctc in split_ctcs
         )
 
